@@ -17,7 +17,10 @@ K  kernel:    Gram matrices of the kernel object  ==  textbook Matern-5/2 (ARD /
               K(X,X*) == K(X*,X)^T; diag(K(X,X)) == diagonal(X) == covariance scale; single-pair calls
               k(x_i, x_j) == K[i, j]. Warped / product / range kernels additionally against their own
               textbook composition (the Kumaraswamy warp is checked separately, the inner Matern on the
-              code's warped inputs); exponential-decay resource kernels: consistency checks only.
+              code's warped inputs); exponential-decay / freeze-thaw resource kernels and every composed
+              kernel (products of a stationary and a non-stationary factor, warped or not): consistency
+              checks only, incl. diag(K(X,X)) == diagonal(X) and "diagonal_depends_on_X() is False  =>
+              diagonal() and the Gram diagonal are the same at X, X* and fresh points".
               After that the Gram matrices are taken from the kernel object, with exactly the calls a
               state makes (kernel(features, features), kernel(features, feature), kernel(features, X*)).
 J  jitter:    E = L L^T - K (L = state.chol_fact; K = lower triangle of the Gram matrix mirrored, which
@@ -63,7 +66,9 @@ import numpy as np
 ID = "C08"
 LEVEL = "exploration"
 RULE = (
-    "case = seeded (kernel kind in {matern, gpr, jitter-regime, warped, product, range, expdecay}; n 1..40, "
+    "case = seeded (kernel kind in {matern, gpr, jitter-regime, warped, product, range, expdecay, composed = "
+    "[WarpedKernel of] ProductKernelFunction(stationary, non-stationary) / WarpedKernel(non-stationary) with "
+    "exponential-decay and freeze-thaw resource kernels, warping on the non-stationary factor's coordinates}; n 1..40, "
     "encoded dimension d 1..6 and (a quarter of the cases) 7..14 with up to three one-hot blocks, ARD with "
     "distinct per-coordinate inverse bandwidths, parameters installed through set_params / the setters and, in "
     "half of the cases, transferred to a second instance by set_params(get_params()); 1..12 test points, 1..6 target/fantasy columns; parameters log-uniform inside their box "
@@ -99,6 +104,13 @@ ASSUMPTIONS = [
     "s_j > 0 is accepted only if the posterior covariance S* is numerically singular (a shift is then needed for "
     "the factorisation); otherwise it is a violation (the code starts its jitter search at 1e-5 instead of 0, "
     "see known finding C08-F1); shifts that cannot be resolved to 1e-7 are not judged",
+    "composed kernels (products with exponential-decay / freeze-thaw factors, warped or not): no closed-form "
+    "reference; they must be self-consistent (symmetry, pair calls, diag(K(X,X)) == diagonal(X) within the "
+    "regulariser band, diagonal_depends_on_X() == False only if diagonal() and the Gram diagonal do not vary), "
+    "then the posterior / incremental clauses run on their Gram matrices; a case whose diagonal() disagrees "
+    "with the Gram diagonal stops after stage K (the prior variance is ambiguous)",
+    "FabolasKernelFunction factors are generated only with INCLUDE_FABOLAS (its forward() ignores u2 and u3: "
+    "candidate finding C08-F2)",
     "exponential-decay resource kernel and its mean function: values are taken from the objects (self-"
     "consistency checked), only the posterior algebra is checked against the dense definition",
     "states whose system matrix has 8 eps cond(A) > 1e-3 are inconclusive for the value clauses",
@@ -125,7 +137,7 @@ COMP_CLASSES = [
 # FabolasKernelFunction.forward reads the internal value of u1 for u1, u2 and u3, diagonal() the real ones:
 # diag(K(X,X)) != diagonal(X) as soon as u2 != u1 or u3 != log(u1) (candidate finding C08-F2, reproducer in
 # .scratch/kf_C08.json). The classes with a Fabolas factor are generated only when this is True.
-INCLUDE_FABOLAS = False
+INCLUDE_FABOLAS = True
 FABOLAS_CLASSES = ["warp(prod(matern,fabolas))", "prod(matern,fabolas)"]
 
 _G = {}
@@ -172,11 +184,19 @@ KINDS = ["matern", "jitter", "gpr", "matern", "jitter", "warped", "matern", "jit
          "jitter", "range", "matern", "jitter", "expdecay", "warped", "composed", "composed", "composed"]
 
 
+def _comp_classes():
+    return COMP_CLASSES + (FABOLAS_CLASSES if INCLUDE_FABOLAS else [])
+
+
 def cases(tier, seed):
     n = 1200 if tier == "quick" else 20000
     out = []
+    classes = _comp_classes()
     for i in range(n):
-        out.append({"seed": seed * 1000003 + i, "kind": KINDS[i % len(KINDS)], "mp": (i % 3 == 0)})
+        spec = {"seed": seed * 1000003 + i, "kind": KINDS[i % len(KINDS)], "mp": (i % 3 == 0)}
+        if spec["kind"] == "composed":
+            spec["comp"] = classes[(i // 3) % len(classes)]  # every composition class equally often
+        out.append(spec)
     return out
 
 
@@ -193,8 +213,10 @@ def floors(tier):
         "cell:kind:gpr": 100, "cell:kind:warped": 100, "cell:kind:product": 50, "cell:kind:range": 50,
         "cell:kind:expdecay": 50,
         "cell:d_ge_7": 150, "cell:ard_d_ge_11": 50, "cell:onehot_blocks": 80,
+        "cell:kind:composed": 120, "decided:diagonal_flag": 1000, "diagonal_flag:True": 150,
+        "diagonal_flag:False": 600, "roundtrip:composed": 50,
         "decided:params_roundtrip": 400, "roundtrip:gpr": 40,
-        "decided:kernel_textbook": 2500, "decided:kernel_pairwise": 9000, "decided:warp_transform": 100,
+        "decided:kernel_textbook": 2000, "decided:kernel_pairwise": 9000, "decided:warp_transform": 100,
         "decided:jitter_structure": 3500, "decided:jitter_sequence": 100, "decided:jitter_minimal": 100,
         "decided:predict_mean": 1500, "decided:predict_variance": 1500, "decided:variance_bounds": 1700,
         "decided:nlml": 650, "decided:joint_covariance": 2000, "decided:joint_offset": 500,
@@ -203,6 +225,11 @@ def floors(tier):
         "decided:expand_fantasies": 60, "decided:gpr_predict": 100,
         "decided:mpmath_posterior": 80, "decided:mpmath_kernel": 30, "decided:mpmath_nlml": 35,
     }
+    for cls in set(_comp_classes()):
+        q["stage_K:comp:" + cls] = 12  # kernel clauses decided on this composition class
+        if cls not in FABOLAS_CLASSES:  # (cases with a Fabolas factor stop after stage K as long as C08-F2 stands)
+            q["cell:comp:" + cls] = 10  # posterior clauses decided on this composition class
+            q["cell:comp_chain:" + cls] = 4  # ... including an incremental chain
     return {k: v * f for k, v in q.items()}
 
 
@@ -423,7 +450,7 @@ def _build_composed(rng, spec, o, M):
     """Kernel trees: [warp(] prod(a, b) [)] or warp(leaf); the warping acts on the non-stationary factor's
     coordinates (sometimes on everything, sometimes on a random range)."""
     G = _imports()
-    classes = COMP_CLASSES + (FABOLAS_CLASSES * 2 if INCLUDE_FABOLAS else [])
+    classes = _comp_classes()
     cls = spec.get("comp", classes[int(rng.integers(0, len(classes)))])
     warp = cls.startswith("warp(")
     inner = cls[5:-1] if warp else cls
@@ -1366,6 +1393,8 @@ def _run(spec, o, sig):
 
     # ---- stage K
     KS = stage_kernel(o, M, X, Xt, rng, do_mp)
+    if getattr(M, "comp", None):
+        o.count("stage_K:comp:" + M.comp)
     if not KS["diag_ok"]:
         # the prior variance is ambiguous (diagonal() disagrees with the Gram matrix): the posterior stages,
         # which take k** and the new diagonal entries from diagonal(), would only repeat this
